@@ -152,6 +152,41 @@ def mean_violations(text, rec):
     return v, subset, differ
 
 
+def same_groups_violations(text, rec):
+    """Alternate-location inputs (one MODEL): a residue that has the same name and the same heavy atoms in two
+    conformations carries the same kinds of groups in both (a group kind is a function of the residue's atoms and of
+    its place in the chain, which alternate locations do not change)."""
+    if "MODEL" in text or len(rec["conf_names"]) < 2:
+        return []
+    per = {}
+    for c in rec["conf_names"]:
+        res = collections.defaultdict(set)
+        for a in rec["confs"][c]["atoms"]:
+            if a["elem"] != "H":
+                res[(a["chain"], a["resnum"], a["icode"], a["resname"])].add(a["name"])
+        kinds = collections.defaultdict(list)
+        for g in rec["confs"][c]["groups"]:
+            kinds[(g["chain"], g["resnum"], g["icode"], g["resname"])].append(g["type"])
+        per[c] = (res, kinds)
+    first = rec["conf_names"][0]
+    v = []
+    for c in rec["conf_names"][1:]:
+        for rid, names in per[first][0].items():
+            if per[c][0].get(rid) == names and sorted(per[first][1].get(rid, [])) != sorted(per[c][1].get(rid, [])):
+                ka, kb = sorted(per[first][1].get(rid, [])), sorted(per[c][1].get(rid, []))
+                # open finding F23: a residue that starts its chain and carries the terminal oxygen (one-residue
+                # chain), listed as whole-residue alternates: only the first alternate gets the amino terminus
+                only_a = [k for k in ka if k not in kb]
+                only_b = [k for k in kb if k not in ka]
+                f23 = "OXT" in names and sorted(only_a + only_b) == ["BBN", "N+"]
+                v.append({"clause": "same-residue-same-groups", "pos": (rid[0].strip() or "_", rid[1]),
+                          "sig": "one-residue-chain-alternates" if f23 else None,
+                          "detail": "residue %r has the same heavy atoms in %s and %s but groups %r vs %r" % (
+                              rid, first, c, sorted(per[first][1].get(rid, [])), sorted(per[c][1].get(rid, [])))})
+                return v
+    return v
+
+
 def check_case(case):
     text = case["pdb"]
     rec = observe.run(text, [], name="a", want_atoms=True)
@@ -159,6 +194,7 @@ def check_case(case):
         return [], {"labels": ["error:" + rec["error"]["type"]]}
     labels = ["nconf:%d" % len(rec["conf_names"])]
     v = topup_violations(text, rec)
+    v += same_groups_violations(text, rec)
     mv, subset, differ = mean_violations(text, rec)
     v += mv
     if len(rec["conf_names"]) == 1:
